@@ -49,10 +49,21 @@ def model_check(ctx: Ctx, label, c, *, level=80, workers=16, timeout=1800, need_
     return r
 
 
-def simulate(ctx: Ctx, label, c, *, num, depth, seed):
+def simulate(ctx: Ctx, label, c, *, num, depth, seed, shards=None):
+    """-simulate in parallel shards (TLC simulation is single-threaded per process)."""
+    from concurrent.futures import ThreadPoolExecutor
     files, mod, cfg = tlc.mc_files("MC_DEVS_sim", "DEVS", tla_consts(c), invariants=["NeverBeyondEnd"], level=depth + 5)
-    behs, r = tlc.simulate(mod, cfg, num=num, depth=depth, seed=seed, extra_files=files, timeout=1800)
-    ctx.add_tlc(label + " -simulate", r)
+    shards = shards or max(1, min(8, num // 15))
+    per = (num + shards - 1) // shards
+
+    def one(k):
+        return tlc.simulate(mod, cfg, num=per, depth=depth, seed=seed * 1000 + k, extra_files=files, timeout=1800)
+    with ThreadPoolExecutor(max_workers=shards) as ex:
+        results = list(ex.map(one, range(shards)))
+    behs = []
+    for k, (b, r) in enumerate(results):
+        behs.extend(b)
+        ctx.add_tlc(f"{label} -simulate shard {k}", r)
     if len(behs) < num // 2:
         raise tlc.MachineryError(f"vacuity: only {len(behs)} behaviours for {label}")
     return behs
@@ -75,13 +86,14 @@ def _quiet(st):
     return st["rs"] != "STARTED" and len(st["due"]) == 0 and st["mode"] == "none"
 
 
-def replay(ctx: Ctx, beh, conc, c, origin):
+def replay(ctx: Ctx, beh, conc, c, origin, model_factory=None):
     """Replay one DEVS.tla behaviour on a real simulator.  Returns the recorded trace
     (also usable for C->S validation), or None if nothing was executed."""
     states = [st for _, _, st in beh]
     final = states[-1]
     ctl = dd.SimCtl(conc, c["EndT"], c["WarmT"], c["Strategy"], prog=_prog(final["prog"]),
-                    init_ops=_ops(final["initOps"]) if final["initOps"] and fn_to_seq(final["initOps"])[0]["k"] != "unset" else [])
+                    init_ops=_ops(final["initOps"]) if final["initOps"] and fn_to_seq(final["initOps"])[0]["k"] != "unset" else [],
+                    model_factory=model_factory)
     case = {"origin": origin, "conc": conc, "consts": c, "ops": [dict(s["op"]) for s in states[1:]],
             "prog": _prog(final["prog"]), "init_ops": ctl.init_ops}
 
@@ -211,14 +223,15 @@ def random_program_gen(rng, end_t, maxev, p_fault, prios=(1, 5, 10), bad=("nan_a
     return gen
 
 
-def random_run(ctx: Ctx, rng, conc, end_t, warm_t, strategy, *, cmds, p_fault=0.0, maxev=14, ncmds=8, reinit=False):
+def random_run(ctx: Ctx, rng, conc, end_t, warm_t, strategy, *, cmds, p_fault=0.0, maxev=14, ncmds=8, reinit=False,
+               model_factory=None, dispose=True):
     gen = random_program_gen(rng, end_t, maxev, p_fault)
     init_ops = []
     for _ in range(rng.choice([1, 2, 3])):
         k = rng.choice(["rel", "rel", "abs", "now"])
         a = 0 if k == "now" else rng.randrange(0, end_t + 2)
         init_ops.append({"k": k, "a": a, "p": rng.choice([1, 5, 10])})
-    ctl = dd.SimCtl(conc, end_t, warm_t, strategy, init_ops=init_ops, prog_gen=gen)
+    ctl = dd.SimCtl(conc, end_t, warm_t, strategy, init_ops=init_ops, prog_gen=gen, model_factory=model_factory)
     try:
         with dd.quiet():
             ctl.initialize()
@@ -256,7 +269,8 @@ def random_run(ctx: Ctx, rng, conc, end_t, warm_t, strategy, *, cmds, p_fault=0.
                 if ctl.errors:
                     break
     finally:
-        ctl.dispose()
+        if dispose:
+            ctl.dispose()
     return ctl
 
 
